@@ -789,12 +789,27 @@ static int run_cmd(struct ctx *c, char **t, int nt) {
       if (be) { free(dir); return 0; }
     } else if (econf_newKeyFile(&kf, '=', '#')) { free(dir); return 0; }
     int nv = nt - 4; econf_err es = 0;
-    for (int round = 0; round < 2; round++) {            /* round 0: set all; round 1: get all */
+    /* mode with 'o' in front ("odirect", "ofile", "opdirect", "opfile"): every key is set a SECOND time before the reading round,
+       to a value whose decimal text is a proper prefix of the first one's where there is one (v / 100, v / 10): a setter
+       replaces whatever the key held */
+    int ow = ARG(2)[0] == 'o'; if (ow) parsed = ARG(2)[1] == 'p';
+    for (int ph = 0; ph < 3; ph++) {            /* phase 0: set all; phase 1: set all again (overwrite mode); phase 2: get all */
+      if (ph == 1 && !ow) continue;
+      int round = ph == 2;
       econf_file *q = kf;
       if (round == 1 && viafile) { es = econf_writeFile(kf, dir, "rtm.conf"); char *pp; if (asprintf(&pp, "%s/rtm.conf", dir) < 0) pp = NULL;
         if (!es) es = econf_readFile(&rd, pp, "=", "#"); free(pp); q = rd; }
       for (int a = 0; a < nv; a++) {
         uint64_t b = strtoull(t[4 + a], NULL, 16); char g[16], k[16]; const char *gp = g; int ok = 1; econf_err e2 = 0;
+        if (ow && ph >= 1) {       /* the second value of this key */
+          if (!strcmp(T, "Int")) b = (uint64_t)(uint32_t)((int32_t)(uint32_t)b / 100);
+          else if (!strcmp(T, "UInt")) b = (uint32_t)b / 100;
+          else if (!strcmp(T, "Int64")) b = (uint64_t)((int64_t)b / 100);
+          else if (!strcmp(T, "UInt64")) b = b / 100;
+          else if (!strcmp(T, "Float")) { float v; uint32_t bb = (uint32_t)b; memcpy(&v, &bb, 4); if (v == v && v - v == 0) { v = (v > -1e9f && v < 1e9f) ? (float)(long)v : v / 10; memcpy(&bb, &v, 4); b = bb; } }
+          else if (!strcmp(T, "Double")) { double v; memcpy(&v, &b, 8); if (v == v && v - v == 0) { v = (v > -1e15 && v < 1e15) ? (double)(long)v : v / 10; memcpy(&b, &v, 8); } }
+          else if (!strcmp(T, "Bool")) b = !(b & 1);
+        }
         /* section names of 1, 2 and 5 characters; the setter and the getter each use the bare or the bracketed form ("[a]"), in all
            four combinations: both forms name the same section whatever its length */
         { static const char *const gn[3] = { "a", "g1", "grp22" }; int br = round ? (a / 3) % 4 < 2 : (a / 3) % 2 == 0;
